@@ -118,6 +118,24 @@ class SymTensor(torch.Tensor):
     def concrete(self):
         return not any(is_sym(v) for v in self.vals())
 
+    def tolist(self):
+        """torch refuses .tolist() on wrapper subclasses; symbolic cells are concretised by forking (as .item() would)"""
+        def conv(v):
+            if not is_sym(v):
+                return v
+            if isinstance(v, XR) or z3.is_real(v):
+                return ENGINE.decide_real(v)
+            if z3.is_bool(v):
+                return ENGINE.decide(v)
+            return ENGINE.decide_int(v)
+
+        def rec(x):
+            if isinstance(x, list):
+                return [rec(y) for y in x]
+            return conv(x)
+
+        return rec(self.nested())
+
     def to_real(self):
         with no_mode():
             return torch.tensor(self.vals(), dtype=self.dtype).reshape(self.shape)
